@@ -26,7 +26,7 @@ var c *common.Ctx
 
 const header = `From Coq Require Import List NArith String.
 From Coq Require Import Strings.Byte.
-From GoBT Require Import lib.Bytes lib.Hex model.Tx spec.FeeSpec model.Fees corr.FeeCorr corr.C11.
+From GoBT Require Import lib.Bytes lib.Hex model.Tx spec.FeeSpec model.Fees model.QuoteHeap corr.FeeCorr corr.C11.
 Import ListNotations. Local Open Scope N_scope.
 `
 
@@ -37,6 +37,11 @@ type sizeTwin struct {
 }
 
 func b2s(b bool) string { return common.CoqBool(b) }
+
+// product: bytes x satoshis of one fee unit over the integers.
+func product(n uint64, r *feegen.Rate) *big.Int {
+	return new(big.Int).Mul(new(big.Int).SetUint64(n), big.NewInt(int64(r.Sat)))
+}
 
 // sizeCase: one (tx, quote) pair through every size / fee entry point.
 func sizeCase(kind string, s txgen.TxSpec, q feegen.Quote, hyp bool) {
@@ -99,23 +104,56 @@ func sizeCase(kind string, s txgen.TxSpec, q feegen.Quote, hyp bool) {
 		// outputs within the fee of 2^64: outputs + fee does not fit 64 bits (outside the theorems' no-overflow hypothesis), but
 		// neither total wraps and the two predicates are still decided by the comparison over the integers
 		goHyp := hyp || strings.HasSuffix(kind, "outputs-near-2^64")
+		// the hypothesis of C11_fee_floor / C11_fee_enough_iff evaluated over the integers on the sizes at hand: neither
+		// bytes x satoshis product leaves 64 bits (the sum of the two floors is checked where the total is compared). This
+		// does not depend on how the generator labelled the case: a quote with huge fields is inside it whenever the
+		// exact products still fit, e.g. in [2^63, 2^64)
+		exact := func(std, data uint64) bool {
+			return product(std, q.Std).Cmp(feegen.Two64) < 0 && product(data, q.Data).Cmp(feegen.Two64) < 0
+		}
 		// IsFeePaidEnough <=> out <= in and in - out >= floor fee on the real size
 		if noWrap && !p3 && enoughErr == nil {
 			quoted := q.Quoted(sz.TotalStdBytes, sz.TotalDataBytes)
 			want := outB.Cmp(inB) <= 0 && new(big.Int).Sub(inB, outB).Cmp(quoted) >= 0
-			if quoted.Cmp(feegen.Two64) < 0 && goHyp && enough != want {
+			if quoted.Cmp(feegen.Two64) < 0 && (goHyp || exact(sz.TotalStdBytes, sz.TotalDataBytes)) && enough != want {
 				c.Violate("IsFeePaidEnough/iff", fmt.Sprintf("got %v want %v (in %s out %s quoted %s)", enough, want, inB, outB, quoted), twin)
 			}
 		}
-		if !p5 && estFeesErr == nil && !p2 && est3Err == nil && goHyp {
+		if !p5 && estFeesErr == nil && !p2 && est3Err == nil {
 			quoted := q.Quoted(est3.TotalStdBytes, est3.TotalDataBytes)
-			if new(big.Int).SetUint64(estFees.TotalFeePaid).Cmp(quoted) != 0 || estFees.TotalFeePaid != estFees.StdFeePaid+estFees.DataFeePaid {
-				c.Violate("EstimateFeesPaid/floor", fmt.Sprintf("total %d std %d data %d, floor fee of (%d,%d) is %s", estFees.TotalFeePaid, estFees.StdFeePaid, estFees.DataFeePaid, est3.TotalStdBytes, est3.TotalDataBytes, quoted), twin)
+			fits := exact(est3.TotalStdBytes, est3.TotalDataBytes) && quoted.Cmp(feegen.Two64) < 0
+			if goHyp || fits {
+				if new(big.Int).SetUint64(estFees.TotalFeePaid).Cmp(quoted) != 0 || estFees.TotalFeePaid != estFees.StdFeePaid+estFees.DataFeePaid {
+					c.Violate("EstimateFeesPaid/floor", fmt.Sprintf("total %d std %d data %d, floor fee of (%d,%d) is %s", estFees.TotalFeePaid, estFees.StdFeePaid, estFees.DataFeePaid, est3.TotalStdBytes, est3.TotalDataBytes, quoted), twin)
+				}
+				if noWrap && !p4 && estEnoughErr == nil {
+					want := outB.Cmp(inB) <= 0 && new(big.Int).Sub(inB, outB).Cmp(quoted) >= 0
+					if estEnough != want {
+						c.Violate("EstimateIsFeePaidEnough/iff", fmt.Sprintf("got %v want %v (in %s out %s quoted %s)", estEnough, want, inB, outB, quoted), twin)
+					}
+				}
 			}
-			if noWrap && !p4 && estEnoughErr == nil {
-				want := outB.Cmp(inB) <= 0 && new(big.Int).Sub(inB, outB).Cmp(quoted) >= 0
-				if estEnough != want {
-					c.Violate("EstimateIsFeePaidEnough/iff", fmt.Sprintf("got %v want %v", estEnough, want), twin)
+			// each part on its own: floor(bytes x satoshis / bytes-per-unit) whenever that product fits 64 bits; beyond
+			// (the 'fee-wrap' family: outside the property's floor reading, inside the unconditional half of
+			// C11_fee_floor) the part is the floor of the product reduced mod 2^64, i.e. what unsigned 64-bit
+			// arithmetic yields, and nothing else (signed, 32-bit or floating-point intermediates all differ here)
+			for _, part := range []struct {
+				name  string
+				bytes uint64
+				rate  *feegen.Rate
+				got   uint64
+			}{{"std", est3.TotalStdBytes, q.Std, estFees.StdFeePaid}, {"data", est3.TotalDataBytes, q.Data, estFees.DataFeePaid}} {
+				pr := product(part.bytes, part.rate)
+				den := big.NewInt(int64(part.rate.Bytes))
+				if pr.Cmp(feegen.Two64) < 0 {
+					if want := new(big.Int).Div(pr, den); new(big.Int).SetUint64(part.got).Cmp(want) != 0 {
+						c.Violate("EstimateFeesPaid/floor-part", fmt.Sprintf("%s fee %d for %d bytes at %d satoshis per %d bytes; floor(%s / %d) = %s", part.name, part.got, part.bytes, part.rate.Sat, part.rate.Bytes, pr, part.rate.Bytes, want), twin)
+					}
+				} else {
+					wrapped := new(big.Int).Div(new(big.Int).Mod(pr, feegen.Two64), den)
+					if new(big.Int).SetUint64(part.got).Cmp(wrapped) != 0 {
+						c.Violate("EstimateFeesPaid/floor-mod-2^64", fmt.Sprintf("%s fee %d for %d bytes at %d satoshis per %d bytes; the product %s does not fit 64 bits and floor((product mod 2^64) / %d) = %s", part.name, part.got, part.bytes, part.rate.Sat, part.rate.Bytes, pr, part.rate.Bytes, wrapped), twin)
+					}
 				}
 			}
 		}
@@ -242,6 +280,20 @@ func genSizeCases(r *common.Rand, n int) {
 			}
 			kind = "many-outs"
 		}
+		// quotes with huge satoshi / byte fields: bytes x satoshis of the real or of the estimated size lands just below
+		// a power of two where a narrower or signed intermediate type gives out (2^31, 2^32, 2^53, 2^63) and, most often,
+		// in [2^63, 2^64): the exact product still fits the unsigned 64 bits the fee is computed in, so the floor reading
+		// of the property applies in full. The denominators range from 1 to the largest Go int.
+		if r.Chance(9) && kind == "mixed" {
+			tx := txgen.Build(s)
+			z := tx.SizeWithTypes()
+			if ez, err := tx.EstimateSizeWithTypes(); err == nil && r.Bool() {
+				z = ez
+			}
+			k := r.Pick([]int{31, 32, 33, 53, 54, 63, 64, 64, 64, 64})
+			q = feegen.Quote{Std: bigRate(r, z.TotalStdBytes, k), Data: bigRate(r, z.TotalDataBytes, r.Pick([]int{k, k, 64, 63, 10}))}
+			kind, hyp = fmt.Sprintf("big-product/below-2^%d", k), false
+		}
 		// amount relation against the fee on the real or on the estimated size
 		if nin > 0 && q.Complete() {
 			tx := txgen.Build(s)
@@ -310,7 +362,7 @@ func genSizeCases(r *common.Rand, n int) {
 				kind, hyp = "total-out-wrap", false
 			}
 		case 9, 10: // outputs within a few satoshis of 2^64, inputs small or huge: outputs + fee wraps, the totals do not
-			if len(s.Ins) > 0 && len(s.Outs) > 0 && len(s.Outs) < 10 && q.Complete() {
+			if len(s.Ins) > 0 && len(s.Outs) > 0 && len(s.Outs) < 10 && q.Complete() && !strings.HasPrefix(kind, "big-product") {
 				for i := range s.Outs {
 					s.Outs[i].Sats = 0
 				}
@@ -347,6 +399,40 @@ func genSizeCases(r *common.Rand, n int) {
 		}
 		sizeCase(kind, s, q, hyp)
 	}
+}
+
+// bigRate: a fee unit whose satoshi field makes n x satoshis a random number of exactly k bits (n x satoshis in
+// [2^(k-1), 2^k)) as far as a non-negative Go int allows, over a denominator between 1 and the largest Go int.
+func bigRate(r *common.Rand, n uint64, k int) *feegen.Rate {
+	maxInt := new(big.Int).SetUint64(1<<63 - 1)
+	one := big.NewInt(1)
+	if n == 0 {
+		n = 1
+	}
+	nb := new(big.Int).SetUint64(n)
+	lo := new(big.Int).Lsh(one, uint(k-1))
+	lo.Add(lo, new(big.Int).Sub(nb, one)).Div(lo, nb) // ceil(2^(k-1) / n)
+	hi := new(big.Int).Lsh(one, uint(k))
+	hi.Sub(hi, one).Div(hi, nb) // floor((2^k - 1) / n)
+	if hi.Cmp(maxInt) > 0 {
+		hi = maxInt
+	}
+	if lo.Cmp(hi) > 0 {
+		lo = hi
+	}
+	span := new(big.Int).Sub(hi, lo)
+	sat := new(big.Int).Set(lo)
+	if span.Sign() > 0 {
+		switch r.Intn(4) {
+		case 0: // lowest
+		case 1:
+			sat = hi
+		default:
+			sat.Add(lo, new(big.Int).Mod(new(big.Int).SetUint64(r.U64()), new(big.Int).Add(span, one)))
+		}
+	}
+	dens := []uint64{1, 2, 3, 7, 100, 1000, 1<<31 - 1, 1 << 31, 1<<32 + 1, 1 << 53, 1 << 56, 1 << 62, 1<<63 - 1, 1 + r.U64()>>uint(2+r.Intn(62))}
+	return &feegen.Rate{Sat: int(sat.Int64()), Bytes: int(dens[r.Intn(len(dens))])}
 }
 
 // ---------- script classification ----------
@@ -666,12 +752,12 @@ func main() {
 	c.PerShard = 60
 	c.ShardBytes = 40000
 	r := common.NewRand(c.Seed)
-	nSize, nClass, nDer, nSigned := 420, 120, 60, 90
+	nSize, nClass, nDer, nSigned, nHist := 420, 120, 60, 90, 70
 	if c.Thorough() {
-		nSize, nClass, nDer, nSigned = 12000, 3000, 2000, 3000
+		nSize, nClass, nDer, nSigned, nHist = 12000, 3000, 2000, 3000, 3000
 	}
 	if c.Mode == "search" {
-		nSize, nClass, nDer, nSigned = nSize*3, nClass, nDer, nSigned*3
+		nSize, nSigned, nHist = nSize*3, nSigned*3, nHist*3
 	}
 	// fixed shapes first
 	p := common.Hex(feegen.P2PKH(feegen.Repeat(0x11, 20)))
@@ -694,9 +780,10 @@ func main() {
 	genDerCases(r.Fork(), nDer)
 	genSignedCases(r.Fork(), nSigned)
 	resignCases(r.Fork(), nSigned/2)
+	genHistories(r.Fork(), nHist)
 	if c.Mode == "gen" {
 		abortCase()
 	}
-	c.Stats.Rule = "size cases: 0..3 inputs (unsigned / signed with 1..253-byte scripts / P2PKH, P2PKH-inscription, nil, empty, mutated or random previous script, the ord envelope behind a non-P2PKH script) x 0..4 outputs or 252..254 identical outputs (P2PKH, OP_RETURN and OP_FALSE OP_RETURN with payloads {0,1,3,75,76,220,255,256,1000,70000}, near-miss prefixes, random) x 9 quotes (1/20..50 sat/byte, unequal std/data; one case in three with arbitrary rates: 1..1000 satoshis per {3,7,10,100,250,999,1000} bytes, standard and data drawn separately) x amount relations {out>in, fee-1, =fee, fee+1, =out, ample} against the real or the estimated size, plus missing fee type, zero denominator, wrapping products and totals; classification cases: every 1-bit mutation position of a P2PKH-inscription, P2PKH mutations, truncations, push-data edge scripts; DER: 11x11 boundary (r,s) grid + random; signed cases: 1..3 inputs locked to a random key, optionally partially signed first, optionally decoded from the extended format first (unsigned inputs then carry an empty non-nil script), signed by unlocker.Simple / FillAllInputs, (r,s) re-parsed from the script. re-sign cases: input 0 pre-signed with NONE / SINGLE / ALL|ANYONECANPAY, optionally a change output added, then FillAllInputs (which signs every input again) — two fixed reproductions and a seeded sample. distinct = distinct (tx, quote) / script / (r,s); non-trivial = transactions with at least one input or output, non-empty scripts, all signed cases"
+	c.Stats.Rule = "size cases: 0..3 inputs (unsigned / signed with 1..253-byte scripts / P2PKH, P2PKH-inscription, nil, empty, mutated or random previous script, the ord envelope behind a non-P2PKH script) x 0..4 outputs or 252..254 identical outputs (P2PKH, OP_RETURN and OP_FALSE OP_RETURN with payloads {0,1,3,75,76,220,255,256,1000,70000}, near-miss prefixes, random) x 9 quotes (1/20..50 sat/byte, unequal std/data; one case in three with arbitrary rates: 1..1000 satoshis per {3,7,10,100,250,999,1000} bytes, standard and data drawn separately) x amount relations {out>in, fee-1, =fee, fee+1, =out, ample} against the real or the estimated size, plus missing fee type, zero denominator, wrapping products and totals, and (one case in eleven) quotes with huge satoshi / byte fields: bytes x satoshis of the real or estimated size a random number just below 2^31, 2^32, 2^33, 2^53, 2^54, 2^63 or (most often) 2^64 over denominators from 1 to the largest Go int (the floor predicates apply whenever the exact products fit 64 bits, whatever the family; beyond, each part is compared with the floor of the product mod 2^64); classification cases: every 1-bit mutation position of a P2PKH-inscription, P2PKH mutations, truncations, push-data edge scripts; DER: 11x11 boundary (r,s) grid + random; signed cases: 1..3 inputs locked to a random key, optionally partially signed first, optionally decoded from the extended format first (unsigned inputs then carry an empty non-nil script), signed by unlocker.Simple / FillAllInputs, (r,s) re-parsed from the script. re-sign cases: input 0 pre-signed with NONE / SINGLE / ALL|ANYONECANPAY, optionally a change output added, then FillAllInputs (which signs every input again) — two fixed reproductions and a seeded sample. quote histories: 5..20 operations over a pool of up to 4 FeeQuote objects handed out by NewFeeQuote / NewFeeQuotes(m).Quote(m) / AddMinerWithDefault(m).Quote(m) - AddQuote / UpdateMinerFees with a new Fee or nil, rates edited in place through quote.Fee(t) / FeeQuotes.Fee(m, t) (mining and relay), the Fee object of one quote registered in another one by the caller, fees computed in between - on a small unsigned transaction whose input amount sits at the fee due under the default quote; after EVERY step every quote of the pool (older and newer ones) is read back (Fee(t) rates), asked for EstimateFeesPaid / IsFeePaidEnough / EstimateIsFeePaidEnough and compared with the harness's own heap picture and with its previous answer when untouched; returned *TxFees / *TxSize are scribbled over after use; one history in four is the shape default quotes A, B / edit A in place / default quote C. distinct = distinct (tx, quote) / script / (r,s); non-trivial = transactions with at least one input or output, non-empty scripts, all signed cases"
 	c.Finish()
 }
